@@ -502,6 +502,7 @@ func c17Real(c *Ctx) {
 		}
 	}
 	c17StatInfos(c)
+	c17LongNameNames(c)
 }
 
 // ---- kind statinfo: which owner and which attribute flags fileStatFromInfo reports, and which owner the long name shows ----
